@@ -89,3 +89,7 @@ fn pref64_tables_inverse() {
         None => assert!(c > 5),
     }
 }
+
+// (A body-independent harness on the whole serialise_router_advertisement -- one captive-portal option, URL of fixed length 6 / 7 with
+// symbolic octets -- was tried and removed: CBMC timed out at 400 s per harness.  The restructured-arm case (seeded change C17-2)
+// therefore stays undecided.)
